@@ -478,6 +478,7 @@ func runC05(c *Ctx, pr *PropertyRun) {
 	}
 
 	c05ReadDir(c, pr, "C05")
+	truncateRule(c, pr, "C05", nil)
 
 	// requests
 	req := NewRule("C05", "C05.requests", "every request URL and Destination header is ResolveHref(name).String(); ResolveHref's table (WHO-MAY-CALL + E2)")
